@@ -154,10 +154,14 @@ def parsed(bits, pre=""):
     """The double returned and its two neighbours in magnitude, exactly."""
     x = nc.from_bits(bits)
     if not math.isfinite(x) or abs(x) >= 2.0 ** 31 + 1:
-        return {pre + "r": dict(ZERO, huge=True), pre + "lo": ZERO, pre + "hi": ZERO}
+        return {pre + "r": dict(ZERO, huge=True), pre + "lo": ZERO, pre + "hi": ZERO, pre + "lo8": ZERO, pre + "hi8": ZERO}
     a = abs(x)
     lo = parts(math.nextafter(a, 0.0)) if a else parts(0.0)
-    return {pre + "r": parts(x), pre + "lo": lo, pre + "hi": parts(math.nextafter(a, math.inf))}
+    lo8 = hi8 = a
+    for _ in range(8):
+        lo8 = math.nextafter(lo8, 0.0)
+        hi8 = math.nextafter(hi8, math.inf)
+    return {pre + "r": parts(x), pre + "lo": lo, pre + "hi": parts(math.nextafter(a, math.inf)), pre + "lo8": parts(lo8), pre + "hi8": parts(hi8)}
 
 
 def to_event(c, ev):
@@ -179,7 +183,7 @@ def to_event(c, ev):
     if k == "atof":
         e = {"e": "Atof", "text": c["text"], "t": numeral(c["text"]), "abort": ab, "san": san}
         if ab:
-            e.update(r=ZERO, lo=ZERO, hi=ZERO, r2=ZERO, lo2=ZERO, hi2=ZERO)
+            e.update(r=ZERO, lo=ZERO, hi=ZERO, lo8=ZERO, hi8=ZERO, r2=ZERO, lo2=ZERO, hi2=ZERO, lo82=ZERO, hi82=ZERO)
         else:
             for k, v in parsed(ev["bits"]).items():
                 e[k] = v
@@ -236,8 +240,8 @@ def run(ctx):
     if sum(1 for x in exported if x["kind"] == "int") < 5000 or sum(1 for x in exported if x["kind"] == "dy") < 2000:
         raise core.Infra("input export produced only %d cases" % len(exported))
     rng = random.Random(ctx.seed)
-    cases = int_cases(rng, exported, 3000 if q else 150000)
-    cases += float_cases(rng, exported, 5000 if q else 150000, 4000 if q else 150000)
+    cases = int_cases(rng, exported, 1500 if q else 150000)
+    cases += float_cases(rng, exported, 3000 if q else 150000, 2500 if q else 150000)
     # supplement: stride sweep of the int32 range against libc inside the probe (selects inputs only)
     stride = 4099 if q else 257
     total = (2 ** 32 + stride - 1) // stride
@@ -261,8 +265,10 @@ def run(ctx):
     cases, evs, mon = run_and_judge(ctx, cases, "c08a")
     ctx.tick("probe+validate 1")
     # the parsing clause on the texts the code itself rendered, and on seeded numerals
-    texts = [e["text"] for e in evs if e.get("e") == "Dtoa"] + [e["text"] for e in evs if e.get("e") == "Itoa"][:2000]
-    acases = atof_cases(rng, texts, 2000 if q else 50000)
+    texts = [e["text"] for e in evs if e.get("e") == "Dtoa"] + [e["text"] for e in evs if e.get("e") == "Itoa"][:1000]
+    if q:
+        texts = rng.sample(texts, min(len(texts), 5000))
+    acases = atof_cases(rng, texts, 1500 if q else 50000)
     if not q and len(acases) > 200000:
         acases = acases[:200000]
     c2, e2, m2 = run_and_judge(ctx, acases, "c08b")
